@@ -252,6 +252,20 @@ def zone_job(a):
             ref_lists[key] = (o, lists)
     res["hist"]["option_sets"] = len(opts)
     # ---------- history independence of the Python implementation ----------
+    # (a) local date-times on Jan 1 / Dec 31 asked while the cache holds that year (after a mid-year query), per window size
+    for o in (ALL_OPTS[0], ALL_OPTS[4]):
+        zs = ZoneSpecifier(info, **o)
+        for y in range(Y0 + 1, Y1 - 1):
+            py_info(zs, tzoracle.t_of(y, 7, 1))
+            for w in (tzoracle.t_of(y), tzoracle.t_of(y) + 1800, tzoracle.t_of(y + 1) - 1800):
+                a_ = py_local(zs, w)
+                b_ = py_local(ZoneSpecifier(info, **o), w)
+                res["evaluations"] += 1
+                if a_ != b_:
+                    fail("python-history", {"wall": w, "wall_iso": sweeplib.iso(w)[:-1], "options": o, "long_lived": list(a_), "fresh": list(b_),
+                                            "before": "instant %d-07-01 then this wall time" % y})
+                    break
+                py_info(zs, tzoracle.t_of(y, 7, 1))
     zs = ZoneSpecifier(info)
     ys = [rnd.randrange(Y0, Y1) for _ in range(12)]
     for y in ys:
